@@ -15,6 +15,17 @@ META = {
     },
 }
 
+META["C18"] = {
+    "level": "Static closure argument over all inputs: the call graph (resolved calls, trait dispatch to all impls, closures, callbacks "
+             "from lalrpop's driver into the generated actions) is computed from MIR, every panic-capable site in it is enumerated, "
+             "and each must be discharged by an audit row whose class is admissible for its zone; grammar actions are additionally "
+             "scanned textually. A fuzzer samples byte strings; this enumerates the code that could panic.",
+    "design_ref": "DESIGN.md §3 R-PANIC/R-GACT, §4 C18",
+    "note": "Trusted: lalrpop runtime + generated tables, std; LOOKUP rows (well-scopedness after checking); termination and stack depth "
+            "are not decided. Known finding: the RISC-V backend's print_i64 is an unconditional panic.",
+    "technique": "static analysis: whole-program call graph over MIR + panic-site inventory against an audited table; grammar action scan",
+}
+
 NOT_APPLICABLE = {
     "C09": "Run-time heap invariant of *generated* code at every statement boundary of every execution; no path property of the "
            "compiler's source corresponds to it and no sound static argument in reach bounds it (DESIGN.md §4 C09/C10).",
@@ -23,5 +34,5 @@ NOT_APPLICABLE = {
 }
 # properties whose checks are not built yet are listed here until their rules exist (kept current by bin/gen-manifest)
 PENDING = "check not built yet in this round; planned rules are in DESIGN.md §4"
-for _p in ["C01", "C02", "C03", "C04", "C05", "C06", "C07", "C08", "C11", "C12", "C13", "C14", "C15", "C16", "C18", "C19", "C20"]:
+for _p in ["C01", "C02", "C03", "C04", "C05", "C06", "C07", "C08", "C11", "C12", "C13", "C14", "C15", "C16", "C19", "C20"]:
     NOT_APPLICABLE.setdefault(_p, PENDING)
